@@ -852,6 +852,14 @@ M('c15-revert-flatten-zero-levels', ['C15'], 'reduction.py',
   "    if levels == 0:\n        return glom(target, subspec)",
   "    if levels == 0:\n        return target",
   "revert of the repair: flatten(levels=0) ignores its spec")
+M('c19-spec-second-character', ['C19'], 'cli.py',
+  "if spec_text[0] not in ('\"', \"'\", \"[\", \"{\", \"(\"):",
+  "if spec_text[1] not in ('\"', \"'\", \"[\", \"{\", \"(\"):",
+  "the literal-or-path decision looks at the second character of the spec text")
+M('c19-python-full-spec-dropped', ['C19'], 'cli.py',
+  "    spec = _compile_code(code_str, name=name, env=env)\n    return spec",
+  "    spec = _compile_code(code_str, name=name, env=env)\n    return None",
+  "the value of a python-full spec expression is dropped")
 M('c04-revert-iterate-message-path', ['C04'], 'core.py',
   "% (target.__class__.__name__, scope[Path], e))",
   "% (target.__class__.__name__, Path(*scope[Path]), e))",
